@@ -1,5 +1,6 @@
 // C16 — the admission / eviction policy (crates/storage/src/tiny_lfu/policy.rs) against an abstract contract of `Lru`.
 // Plain lines = specification; `//@` = real source text, re-extracted on every run.
+//@ rule R18
 #![allow(unused_imports, unused_variables, dead_code, non_snake_case)]
 use vstd::prelude::*;
 verus! {
@@ -367,7 +368,12 @@ pub broadcast group group_seq_facts {
 #[derive(Clone, Copy, PartialEq, Eq, Structural)]
 //@ end
 
-pub trait LifecycleListener<K, V> {}
+pub trait LifecycleListener<K, V> {
+    /// what the owner says about an entry (a function of key and value: e.g. `pin_count > 0`)
+    spec fn pinned(&self, key: K, value: V) -> bool;
+    fn is_pinned(&self, key: &K, value: &V) -> (r: bool)
+        ensures r == self.pinned(*key, *value), !r ==> unpinned_ev(*key, *value);
+}
 
 /// struct stand-in (field subset): the dispatcher reads `unpin_strategy` and `build_hasher`; `storage` is an opaque stand-in whose
 /// queries answer arbitrarily; the real struct also holds the read/write buffers, the policy mutex and the maintenance flag
@@ -404,29 +410,60 @@ impl<T> ReadBuffer<T> {
     #[verifier::external_body]
     pub fn drain(&self) -> Vec<T> { unimplemented!() }
 }
+pub assume_specification<T>[ std::mem::drop ](_0: T);
+
+/// events of the concurrent storage map (scc::HashMap), as seen through ONE locked entry handle
+pub uninterp spec fn absent_ev<K>(k: K) -> bool;            // the map had no entry for k when asked
+pub uninterp spec fn seen_ev<K, V>(k: K, v: V) -> bool;      // the entry of k was locked and held value v
+pub uninterp spec fn removed_ev<K, V>(k: K, v: V) -> bool;   // the locked entry (k, v) was removed from the map
+pub uninterp spec fn unpinned_ev<K, V>(k: K, v: V) -> bool;  // the listener was asked about (k, v) and answered "not pinned"
+pub mod scc { pub mod hash_map {
+    use vstd::prelude::*;
+    use super::super::*;
+    /// interface stand-in for scc::hash_map::Entry: an Occupied handle IS the exclusive lock on that entry
+    #[verifier::reject_recursive_types(K)]
+    #[verifier::reject_recursive_types(V)]
+    pub enum Entry<K, V> { Occupied(OccupiedEntry<K, V>), Vacant(VacantEntry<K, V>) }
+    #[verifier::external_body]
+    #[verifier::reject_recursive_types(K)]
+    #[verifier::reject_recursive_types(V)]
+    pub struct OccupiedEntry<K, V> { _p: core::marker::PhantomData<(K, V)> }
+    #[verifier::external_body]
+    #[verifier::reject_recursive_types(K)]
+    #[verifier::reject_recursive_types(V)]
+    pub struct VacantEntry<K, V> { _p: core::marker::PhantomData<(K, V)> }
+    impl<K, V> OccupiedEntry<K, V> {
+        pub uninterp spec fn key(&self) -> K;
+        pub uninterp spec fn value(&self) -> V;
+        #[verifier::external_body]
+        pub fn get_mut(&mut self) -> (r: &mut V)
+            ensures *r == old(self).value(), final(self).value() == *final(r), final(self).key() == old(self).key(), seen_ev(old(self).key(), old(self).value())
+        { unimplemented!() }
+        /// protocol precondition of the EVICTION path: an entry is taken out of the map only after the listener answered
+        /// "not pinned" for exactly the value this locked handle holds
+        #[verifier::external_body]
+        pub fn remove_entry(self) -> (r: (K, V))
+            requires unpinned_ev(self.key(), self.value())
+            ensures removed_ev(self.key(), self.value())
+        { unimplemented!() }
+    }
+} }
 impl<K, V> StorageMap<K, V> {
+    /// scc::HashMap::entry_sync: locks the entry of `key` (or reports that there is none)
+    #[verifier::external_body]
+    pub fn entry_sync(&self, key: K) -> (e: scc::hash_map::Entry<K, V>)
+        ensures match e { scc::hash_map::Entry::Occupied(o) => o.key() == key, scc::hash_map::Entry::Vacant(_) => absent_ev(key) }
+    { unimplemented!() }
     #[verifier::external_body]
     pub fn contains_sync(&self, key: &K) -> bool { unimplemented!() }
     #[verifier::external_body]
     pub fn len(&self) -> usize { unimplemented!() }
 }
 
-impl<K, V, L> TinyLFUInner<K, V, L> {
-    /// what the owner answers when asked to give up key k (true: removed / absent, false: pinned) -- the relation the
-    /// real `remove_closure` implements over the storage map and the lifecycle listener under the entry lock
-    pub uninterp spec fn owner_answers(&self, k: K, b: bool) -> bool;
-
+impl<K, V, L: LifecycleListener<K, V>> TinyLFUInner<K, V, L> {
     /// TinyLFUInner::hash
     #[verifier::external_body]
     pub fn hash<T>(&self, t: &T) -> u64 { unimplemented!() }
-
-    /// TinyLFUInner::remove_closure (scc entry API + listener: not under contract)
-    #[verifier::external_body]
-    pub fn remove_closure(&self) -> (r: impl Fn(&K) -> bool)
-        ensures
-            forall|k: &K| #[trigger] r.requires((k,)),
-            forall|k: &K, b: bool| #[trigger] r.ensures((k,), b) ==> self.owner_answers(*k, b),
-    { |k: &K| -> bool { true } }
 
     pub open spec fn forgets_only_released(&self, old_p: &Policy<K>, new_p: &Policy<K>) -> bool {
         forall|k: K| #![trigger new_p.lru.tracks(k)] old_p.lru.tracks(k) && !new_p.lru.tracks(k) ==> self.owner_answers(k, true)
@@ -451,7 +488,26 @@ impl<K, V, L> TinyLFUInner<K, V, L> {
     }
 }
 
+impl<K, V, L: LifecycleListener<K, V>> TinyLFUInner<K, V, L> {
+    /// what the owner answers when asked to give up key k:
+    ///   true  -- the map had no entry for k, or the LOCKED entry held a value the listener calls unpinned and exactly that
+    ///            entry was removed (asked again under the entry lock, removed under the same lock);
+    ///   false -- the locked entry held a value the listener calls pinned (it stays)
+    pub open spec fn owner_answers(&self, k: K, b: bool) -> bool {
+        if b { absent_ev(k) || exists|v: V| #![trigger seen_ev(k, v)] seen_ev(k, v) && !self.lifecycle_listener.pinned(k, v) && removed_ev(k, v) }
+        else { exists|v: V| #![trigger seen_ev(k, v)] seen_ev(k, v) && self.lifecycle_listener.pinned(k, v) }
+    }
+}
 //@ impl crates/storage/src/tiny_lfu.rs :: impl< K: std::hash::Hash + Eq + Clone + Send + Sync + 'static, V: Send + Sync + 'static, L: LifecycleListener<K, V> + Send + Sync + 'static, > TinyLFUInner<K, V, L>
+//@ member remove_closure
+//@ text-sub |evicted_key| { => |evicted_key: &K| -> (b: bool) ensures self.owner_answers(*evicted_key, b) {
+//@ ret r
+//@ sig
+        ensures
+            forall|k: &K| #[trigger] r.requires((k,)),
+            forall|k: &K, b: bool| #[trigger] r.ensures((k,), b) ==> self.owner_answers(*k, b),
+//@ head
+        proof { axiom_key_clone::<K>(); }
 //@ member process_policy_message
 //@ attr
     #[verifier::exec_allows_no_decreases_clause]
